@@ -32,33 +32,51 @@ def run(ck):
     g = Graph(fn)
     # --- O3 return expression
     rs = returns(fn)
-    ck.require(len(rs) == 1, "JsonFormatter::format has %d returns" % len(rs))
-    e = skip_copies(rs[0].get("e"))
-    names, root = call_chain(e)
-    shape = len(names) >= 2 and name_is(names[0], "QString::fromUtf8") is True
-    tojson = None
-    if is_call(e, "QString::fromUtf8") and e.get("args"):
-        tojson = skip_copies(e["args"][0])
-    ok = tojson is not None and is_call(tojson, "QJsonDocument::toJson")
-    doc = skip_copies(tojson.get("obj")) if ok else None
-    while isinstance(doc, dict) and doc.get("k") == "cast":
-        doc = skip_copies(doc.get("e"))
-    ok = ok and doc.get("k") == "construct" and doc.get("class") == "QJsonDocument" and doc.get("args") and skip_copies(doc["args"][0]).get("k") == "ref"
-    if not ok:
+    ck.require(rs, "JsonFormatter::format has no return")
+
+    def delegation(r):
+        """(tojson call, document construct) if `return QString::fromUtf8(QJsonDocument(obj).toJson(mode))`, else None"""
+        e = skip_copies(r.get("e"))
+        tj = skip_copies(e["args"][0]) if is_call(e, "QString::fromUtf8") and e.get("args") else None
+        if tj is None or not is_call(tj, "QJsonDocument::toJson"):
+            return None
+        d = skip_copies(tj.get("obj"))
+        while isinstance(d, dict) and d.get("k") == "cast":
+            d = skip_copies(d.get("e"))
+        if isinstance(d, dict) and d.get("k") == "construct" and d.get("class") == "QJsonDocument" and d.get("args") and skip_copies(d["args"][0]).get("k") == "ref":
+            return tj, d
+        return None
+    shaped = [(r, delegation(r)) for r in rs]
+    bad = [r for r, d in shaped if d is None]
+    for r in bad:
+        e = skip_copies(r.get("e"))
         lw = lossy_wrappers(e)
-        ck.ob("C13-O3", sitestr(fn, rs[0]), False if lw else None, "format() returns %s%s" % (describe(e)[:120], " (edited by %s)" % lw if lw else ""), key="JsonFormatter::format|return-shape")
+        src = deref_local(fn, e)
+        by_hand = bool(lw) or any(x.get("k") == "call" and (x.get("op") in ("+", "+=") or name_is(x.get("callee"), ("append", "prepend", "insert", "QString::number", "toUtf8"))) for x in walk(src)) \
+            or any(x.get("k") == "ref" and x.get("dk") == "local" and any(write_kind(fn, y) or assignment_target(fn, y)[0] is not None for y in refs_to(fn, x.get("decl"))) for x in walk(e))
+        ck.ob("C13-O3", sitestr(fn, r), False if by_hand else None, "format() returns %s%s: this path does not leave the serialisation (escaping of names and values) to QJsonDocument" %
+              (describe(e)[:100], " (edited by %s)" % lw if lw else " (assembled by hand)" if by_hand else ""), key="JsonFormatter::format|return-shape")
+    if bad:
         return
-    ck.ob("C13-O3", sitestr(fn, rs[0]), True, "returns QString::fromUtf8(QJsonDocument(obj).toJson(mode)) with no further editing")
-    objdecl = skip_copies(doc["args"][0])["decl"]
-    mode = tojson["args"][0] if tojson.get("args") else None
+    ck.ob("C13-O3", sitestr(fn, rs[0]), True, "every return (%d) is QString::fromUtf8(QJsonDocument(obj).toJson(mode)) with no further editing" % len(rs))
+    objs = {skip_copies(d[1]["args"][0])["decl"] for r, d in shaped}
+    ck.require(len(objs) == 1, "the returns of JsonFormatter::format serialise different objects")
+    objdecl = objs.pop()
+    tojson = shaped[0][1][0]
     isc = lambda n: is_this_field(n, JF + "::m_compact")
     for val, want, wname in ((True, 1, "Compact"), (False, 0, "Indented")):
-        leafm = resolve_value(mode, atom_eq(isc, val), fn)
-        got = const_int(leafm)
-        if leafm is not None and skip_copies(leafm).get("k") == "cond":
-            got = None
-        ck.ob("C13-O3", sitestr(fn, tojson), (got == want) if got is not None else None, "compact=%s -> QJsonDocument::%s" % (val, wname) if got == want else
-              "compact=%s -> mode %s" % (val, describe(leafm)), key="JsonFormatter::format|mode-%s" % val)
+        keepv = g.projector(atom_eq(isc, val))
+        livev = g.live(keepv)
+        for r, (tj, d) in shaped:
+            if g.site_of(r) not in livev:
+                continue
+            mode = tj["args"][0] if tj.get("args") else None
+            leafm = resolve_value(mode, atom_eq(isc, val), fn)
+            got = const_int(leafm)
+            if leafm is not None and skip_copies(leafm).get("k") == "cond":
+                got = None
+            ck.ob("C13-O3", sitestr(fn, tj), (got == want) if got is not None else None, "compact=%s -> QJsonDocument::%s" % (val, wname) if got == want else
+                  "compact=%s -> mode %s" % (val, describe(leafm)), key="JsonFormatter::format|mode-%s" % val)
     for ct in F.fn_all(JF + "::JsonFormatter"):
         if ct.d.get("kind") == "ctor" and not ct.d.get("copyctor") and not ct.d.get("movector") and ct.params:
             i = [x for x in ct.inits if x.get("member") == JF + "::m_compact"]
